@@ -48,9 +48,14 @@ def gen(rng, tier):
     for c in range(1, nclients + 1):
         t = 0.0
         for _ in range(rng.choice([1, 2, 3])):
-            d = rng.choice([0, 0, 0.02, 0.05, 0.1, 0.15, 0.25, 0.4])
-            if d:
-                clients[c].append(["sleep", d])
+            r = rng.random()
+            if r < 0.3:
+                # land around the end of an attempt: policy evaluation, re-queueing, hand-over
+                clients[c].append(["await", rng.choice(["call-exit", "call-exit", "call-enter"])])
+            else:
+                d = rng.choice([0, 0, 0.02, 0.05, 0.1, 0.15, 0.25, 0.4])
+                if d:
+                    clients[c].append(["sleep", d])
             clients[c].append(["cancel", rng.randrange(nsubs)])
     spec = {"mode": "stack", "base": base, "layers": layers, "subs": subs, "clients": clients, "aux": False}
     bound = 0.0
